@@ -83,7 +83,7 @@ def run(ctx):
                "element pairs are skipped or delegated to unify (covered by R1)")
     # R2b: where `$_` ends an element-wise unification early (tail position), the set returned is the running set —
     # `$_` must not change (here: drop) any binding made for the earlier elements
-    from sym import Walker, strip, show
+    from sym import Walker, strip, show, mentions
     sp = ("param", 1, body.locals[1].get("name") or "")
     op_ = ("param", 2, body.locals[2].get("name") or "")
     ssp = ("param", 3, body.locals[3].get("name") or "")
@@ -100,8 +100,13 @@ def run(ctx):
             if not anon_hit:
                 continue
             ucalls = [e for e in p.calls() if e["callee"].endswith("Unifiable::unify")]
-            if v == "SComplex" and not ucalls:
-                continue     # `$_` in functor position / empty terms: outside the universe (see C06/R4)
+            skip0 = any(e["k"] == "branch" and e["value"] is True and e["cond"][0] == "call" and e["cond"][1].endswith("::eq")
+                        and any(isinstance(a, tuple) and a[0] == "agg" and a[2] == "Anonymous" for a in e["cond"][2])
+                        and any(isinstance(a, tuple) and mentions(a, lambda t: t[0] == "call" and t[1].endswith("::index")
+                                                                 and t[2][1][0] == "const" and t[2][1][3] == 0)
+                                for a in e["cond"][2]) for e in p.events)
+            if v == "SComplex" and skip0:
+                continue     # `$_` in functor position: outside the universe (make_complex requires an atom; see C06/R4)
             n += 1
             running = ("field", ucalls[-1]["result"], "Some.0") if ucalls else ssp
             pl = strip(dict(p.ret[3]).get("0"))
